@@ -200,6 +200,29 @@ CHECKS["C07"] = dict(
          "Python's deterministic hash of int tuples for context ids. One open known finding (method chain on a returned object).",
     design="4/C07")
 
+CHECKS["C08"] = dict(
+    level="model_checking", engine="T",
+    technique="per generated program: real lian run (main.py semantic); CrossHair (z3) executes the reference GIR interpreter with "
+              "symbolic unknown inputs and checks every concrete value assigned at a definition against the abstract states lian "
+              "stores for that definition (s2space_p3)",
+    text="For every program of the value family and ALL unknown inputs, each int/bool/str value a variable takes at a defining "
+         "statement is covered by a constant state with the same value or an explicit unknown state of the symbol defined "
+         "there; values stored in objects are checked where they are read back. CONFIRMED = all paths of all programs in the "
+         "slice exhausted. The literals-are-data clause is represented by two witness programs (open known findings).",
+    note="Trusted: the reference interpreter, the table join (stmt_status_p3.defined_symbol -> s2space_p3), CrossHair/z3.",
+    design="4/C08")
+CHECKS["C09"] = dict(
+    level="model_checking", engine="T",
+    technique="per generated loop-free program: real lian run; CrossHair (z3) drives the reference interpreter with symbolic branch "
+              "DECISIONS so that all control-flow paths (feasible or not) are exhausted; observed values are aggregated and "
+              "compared two-sidedly with lian's constant sets",
+    text="On loop-free programs over constants, objects, aliases and helper calls, for every definition whose abstract states are "
+         "all constants the set lian holds equals the union over ALL control-flow paths of the value written (overwritten "
+         "values absent, other fields untouched, per-call-site results); path exhaustion is CrossHair's CONFIRMED verdict over "
+         "the decision variables.",
+    note="Trusted: the reference interpreter, branch-directed execution as the meaning of 'control-flow path', CrossHair/z3.",
+    design="4/C09")
+
 NOT_APPLICABLE = {
     "C12": "A relation between two whole-pipeline runs on syntactically edited programs: the quantified objects are "
            "program texts and edit sequences; no run-time input, id, flag or history for a solver to range over; "
